@@ -84,6 +84,16 @@ def f2(run: Run, prog: Program):
             diag = (i, st)
     ret = [st for st in body if isinstance(st, ast.Return)]
     ok_thr = thr is not None
+    if not ok_thr and any(
+            isinstance(d_, ast.FunctionDef) and any(
+                isinstance(a_, ast.Assign) and isinstance(a_.targets[0], ast.Subscript)
+                for a_ in ast.walk(d_)) for d_ in ast.walk(f.node) if d_ is not f.node):
+        # the stores go through a local closure (`mark(mask, value)`): not read
+        run.unknowns.append(f"F2: {f.qualname} stores through a local closure; the "
+                            f"thresholding store and the diagonal clearing are not "
+                            f"decided")
+        run.oblige("F2", "threshold-store", True, nontrivial=False)
+        return
     run.oblige("F2", "threshold-store", ok_thr, sample={"where": f.where})
     if not ok_thr:
         run.add("F2", f"{f.qualname}/no-threshold-store", f.where,
@@ -140,10 +150,33 @@ def f2(run: Run, prog: Program):
         FUNNEL = ("self._calculate_threshold_adjacency",
                   "self._calculate_non_local_adjacency")
 
+        def _dispatch_targets(fn_):
+            """names a `getattr(self, <table lookup>)` can stand for, or None"""
+            from .pymodel import UNKNOWN
+            if not (isinstance(fn_, ast.Call) and isinstance(fn_.func, ast.Name) and
+                    fn_.func.id == "getattr" and len(fn_.args) == 2 and
+                    ast.unparse(fn_.args[0]) == "self"):
+                return None
+            x = fn_.args[1]
+            v = prog.static_value(x, cn, st_.module)
+            if isinstance(v, str):
+                return {v}
+            if isinstance(x, ast.Subscript):
+                tab = prog.static_value(x.value, cn, st_.module)
+                if isinstance(tab, dict) and tab and all(
+                        isinstance(t_, str) for t_ in tab.values()):
+                    return set(tab.values())
+                if isinstance(tab, tuple) and tab and all(isinstance(t_, str) for t_ in tab):
+                    return set(tab)
+            return None
+
         def _funnel_callee(fn_):
             # the method itself, or a local / conditional expression choosing
             # between the two thresholding variants
             fn_ = inline_locals(st_.node, fn_)
+            tg_ = _dispatch_targets(fn_)
+            if tg_ is not None:
+                return all("self." + t_ in FUNNEL for t_ in tg_)
             if isinstance(fn_, ast.IfExp):
                 return _funnel_callee(fn_.body) and _funnel_callee(fn_.orelse)
             return ast.unparse(fn_) in FUNNEL
@@ -165,6 +198,9 @@ def f2(run: Run, prog: Program):
             if not isinstance(e, ast.Call):
                 return False
             fn_ = inline_locals(fnode, e.func)
+            tg_ = _dispatch_targets(fn_)
+            if tg_ is not None:
+                return all("self." + t_ in FUNNEL for t_ in tg_)
             if isinstance(fn_, ast.IfExp):
                 return all(ast.unparse(x) in FUNNEL for x in (fn_.body, fn_.orelse))
             if ast.unparse(fn_) in FUNNEL:
